@@ -454,9 +454,11 @@ def call_builtin(interp, name, args, kwargs, site):
                 return s
         it = native_iter(s)
         if it is not None:
+            if it is s and not it.kw.get("async_wrapped"):
+                it = NativeIter(it.kind, it.data, **it.kw)
+                it.idx = s.idx
+            it.kw["async_wrapped"] = True      # `_aiter_sync(iterable)`: an async generator over a plain iterable
             return it
-        if isinstance(s, NativeIter):
-            return s
         raise PyRaise(ExcVal("TypeError", ident="not iterable"))
     # ---- type tests ------------------------------------------------------------------------
     if name == "isinstance":
